@@ -355,3 +355,40 @@ Section Tree.
     | _, _ => Err "unsupported root schema type"
     end.
 End Tree.
+
+(* ------------------------------------------------------------ schema condition of the exactness theorems
+   (proofs/CodecDecStored.v: props_separate), as a computable check that the correspondence runs on every
+   environment dumped from the real reflector *)
+Fixpoint indep_b (p q : list N) (sib : list N) : bool :=
+  match p, q with
+  | x :: p', [y] => negb (x =? y) && negb (existsb (N.eqb x) sib)
+  | x :: p', y :: q' => negb (x =? y) || indep_b p' q' sib
+  | _, _ => false
+  end.
+
+Definition indep_prop_b (e : env) (p : list N) (q : property) : bool :=
+  match p_path q with
+  | [] =>
+    match p_ty q with
+    | FOneof ref =>
+      match lookup e ref with
+      | Some (SOneof ps) =>
+          forallb (fun q' => match p_path q' with [] => false | path => indep_b p path (p_siblings q') end) ps
+      | _ => true
+      end
+    | _ => true
+    end
+  | path => indep_b p path []
+  end.
+
+Definition props_separate_b (e : env) (props : list property) : bool :=
+  forallb (fun q1 =>
+    forallb (fun q2 =>
+      bytes_eqb (p_json q1) (p_json q2) ||
+      match p_path q1 with [] => true | path1 => indep_prop_b e path1 q2 end) props) props.
+
+Definition env_separate (e : env) : bool :=
+  forallb (fun ns => match snd ns with
+                     | SObject props | SOneof props => props_separate_b e props
+                     | SEnum _ _ => true
+                     end) e.
